@@ -23,13 +23,22 @@ def load_known():
     return json.load(open(p)).get("findings", [])
 
 def find_harness(name):
+    """harnesses are looked up by name (worker processes, replays): one name must mean one configuration in both tiers"""
     prop = name.split(".")[0]
     mod = importlib.import_module("vf.harness." + prop.lower())
+    found = []
     for tier in ("quick", "thorough"):
         for h in mod.harnesses(tier):
             if h.name == name:
-                return h
-    raise SystemExit(f"no harness named {name}")
+                found.append(h)
+    if not found:
+        raise SystemExit(f"no harness named {name}")
+    cfg = lambda h: {k: repr(v) for k, v in vars(h).items() if k != "inner"}
+    for h in found[1:]:
+        if cfg(h) != cfg(found[0]):
+            from . import symx
+            raise symx.HarnessError(f"harness name {name} stands for two different configurations (quick / thorough)")
+    return found[0]
 
 def sig(res):
     lab = res.get("cex_real_failing") or res.get("cex_failing") or ["?"]
